@@ -93,6 +93,8 @@ type LockBlock struct {
 	Thresholds []ThresholdReq `json:"thresholds,omitempty"`
 	Gas        string         `json:"gas,omitempty"`
 	Bad        int            `json:"bad,omitempty"` // deliberately failing request kind (0 = none)
+	// Reimport: before this block the chain is restarted from its exported state (export -> fresh application -> InitChain)
+	Reimport bool `json:"reimport,omitempty"`
 }
 
 type LockCase struct {
@@ -330,6 +332,7 @@ type lockWorld struct {
 	// MaxTotalVotingPower in this or an earlier block (upper bound over the model) - the region of the
 	// recorded known finding 'voting power is not bounded'
 	powerBeyondCap bool
+	reimports      int
 	sim   *world.Sim
 	m     *lockModel
 	obs   *lockingtypes.GenesisState // latest export
@@ -436,6 +439,12 @@ func (w *lockWorld) obsValidator(g *lockingtypes.GenesisState, idx int) *locking
 func (w *lockWorld) step(bi int, lb LockBlock) error {
 	m := w.m
 	w.bi = bi
+	if lb.Reimport && bi > 0 {
+		if err := w.sim.Reimport(); err != nil {
+			return fmt.Errorf("re-import of the exported state: %w", err)
+		}
+		w.reimports++
+	}
 	sim := w.sim
 	chain := sim.Chain
 	// abstract validator references are resolved against the validators that
